@@ -94,11 +94,9 @@ def gen_route_body(rng, ok: bool = True) -> str:
                 'route 10.0.1.0/24 next-hop 192.0.2.1 community [ 1:2',
                 'route 10.0.1.0/24 next-hop 192.0.2.1 local-preference',
                 'ipv4 unicast',
-                'ipv4 unicast 10.0.1.0/24',
                 'ipv6 unicast 2001:db8::/129 next-hop 2001:db8::1',
                 'flow route { match',
                 'route 10.0.1.0/24 next-hop 192.0.2.1 bogus-attribute 7',
-                'attributes next-hop 192.0.2.1 nlri',
             ]
         )
     x = rng.random()
@@ -184,13 +182,13 @@ class Gen:
         act = rng.choice(['announce', 'announce', 'withdraw'])
         if x < 0.30:  # selector + route
             ok = rng.random() < 0.85
-            return [self.selected(f'{act} {gen_route_body(rng, ok)}', 'sel-route', nochange=not ok)]
+            return [self.selected(f'{act} {gen_route_body(rng, ok)}', 'sel-route')]
         if x < 0.42:  # no selector
             ok = rng.random() < 0.85
             body = gen_route_body(rng, ok)
             if v == 4:
-                return [self.line(f'{act} {body}', kind='route', nochange=not ok)]
-            return [self.line(f'peer * {act} {body}', kind='route', nochange=not ok)]
+                return [self.line(f'{act} {body}', kind='route')]
+            return [self.line(f'peer * {act} {body}', kind='route')]
         if x < 0.49:
             return [self.selected(f'{act} watchdog {rng.choice(["dog", "cat", "bird"])}', 'sel-watchdog')]
         if x < 0.52:
@@ -198,6 +196,8 @@ class Gen:
         if x < 0.56:
             w = rng.choice(['flush adj-rib out', 'clear adj-rib out', 'clear adj-rib in']) if v == 4 else rng.choice(['rib flush out', 'rib clear out', 'rib clear in'])
             return [self.line(w, kind='rib')]
+        if x < 0.575 and not self.grouping:
+            return [self.line('group end', kind='unknown', nochange=True)]  # not in a group (or v4): refused
         if x < 0.64:  # unknown
             w = rng.choice(
                 ['bogus', 'announce', 'announce bogus 1', 'neighbor 10.0.0.1 frobnicate', 'peer 10.0.0.1', 'peer announce route 10.0.1.0/24 next-hop 192.0.2.1', 'neighbor', 'peer', 'rib', 'session ack', 'withdraw', 'neighbor 10.0.0.1', 'peer * local-as 65000 announce route 10.0.1.0/24 next-hop 192.0.2.1', 'peer [ 10.0.0.1 peer-as', 'show', 'announce route-refresh', 'daemon', 'x' * rng.choice([1, 50, 300])]
@@ -223,15 +223,23 @@ class Gen:
             if nv in (4, 6):
                 self.version = nv
             return [l]
-        if x < 0.93:  # multi-line group
+        if x < 0.93:  # multi-line group (the v4 dispatcher does not know `group`: the lines are then ordinary commands)
+            grp = v == 6 or self.grouping
             out = [self.line('group start', kind='group-start', nochange=True)]
+            if v == 6:
+                self.grouping = True
             for _ in range(rng.randrange(0, 4)):
                 ok = rng.random() < 0.8
-                out.append(self.line(f'{rng.choice(["announce", "withdraw"])} {gen_route_body(rng, ok)}', kind='group-item', nochange=True))
+                body = f'{rng.choice(["announce", "withdraw"])} {gen_route_body(rng, ok)}'
+                out.append(self.line(body, kind='group-item', nochange=True) if grp else self.line(body, kind='route'))
             if rng.random() < 0.2:
-                out.append(self.selected(f'announce {gen_route_body(rng)}', 'sel-route', nochange=False))
+                out.append(self.selected(f'announce {gen_route_body(rng)}', 'sel-route'))
             if rng.random() < 0.9:
-                out.append(self.line('group end', kind='group-end'))
+                out.append(self.line('group end', kind='group-end', **({} if v == 6 else {'nochange': True})))
+                if v == 6:
+                    self.grouping = False
+            elif rng.random() < 0.3 and v == 6:
+                out.append(self.line('group start', kind='group-start', nochange=True))  # nested: refused
             return out
         if x < 0.97:  # inline group
             parts = '; '.join(f'{rng.choice(["announce", "withdraw"])} {gen_route_body(rng, rng.random() < 0.85)}' for _ in range(rng.randrange(1, 4)))
@@ -313,7 +321,7 @@ def specs_of(case: dict) -> list[dict]:
 
 
 def run_real(case: dict, cuts: list[int]) -> dict:
-    rig = apirig.ApiRig(case['version'], specs_of(case), ack=case.get('ack', True))
+    rig = apirig.ApiRig(case['version'], specs_of(case), ack=case.get('ack', True), max_command=case.get('max'))
     try:
         data = case_bytes(case)
         sched: list = []
@@ -423,11 +431,14 @@ def probe_quirks() -> dict:
     f21 = bool(changed(r['before'][0], r['after'][0]))
     r = run(6, f'peer {specs[1]["peer"]} announce watchdog dog')
     wd = bool(changed(r['before'][0], r['after'][0]) - {1})
-    return {'wildcardShort': f13, 'v6Fallback': f21, 'watchdogAll': wd}
+    c = oversize_probe(16)
+    a, b = run_real(c, c['cuts']), run_real(c, c['cuts2'])
+    strict = a['commands'] == b['commands'] and a['dead'] == b['dead']
+    return {'wildcardShort': f13, 'v6Fallback': f21, 'watchdogAll': wd, 'strictReader': strict}
 
 
 def model_lines(case: dict, res: dict, quirks: dict, nexec: int) -> list[str]:
-    q = ''.join('1' if quirks[k] else '0' for k in ('wildcardShort', 'v6Fallback', 'watchdogAll'))
+    q = ''.join('1' if quirks[k] else '0' for k in ('wildcardShort', 'v6Fallback', 'watchdogAll', 'strictReader'))
     lines = [f'api init {case["version"]} {int(case.get("ack", True))} {q} {case.get("max", MAX)} {hexs(apirig.SERVICE)}']
     lines += res['nbr_lines']
     for name, i in res['wdnames'].items():
@@ -448,19 +459,22 @@ def model_lines(case: dict, res: dict, quirks: dict, nexec: int) -> list[str]:
     return lines
 
 
-def run_model(case: dict, res: dict, quirks: dict) -> dict:
+def model_script(case: dict, res: dict, quirks: dict) -> list[str]:
     n = len(res['commands'])
-    pre = model_lines(case, res, quirks, n)
-    lines = list(pre)
+    lines = model_lines(case, res, quirks, n)
     lines += [f'api feed {c.hex() or "-"}' for c in res['chunks']]
     lines.append('api ribs')
     for _ in range(n + 1):
         lines += ['api exec', 'api ribs']
-    out = common.run_driver('drv_api', lines)
+    return lines
+
+
+def model_result(res: dict, lines: list[str], out: list[str]) -> dict:
     bad = [(l, o) for l, o in zip(lines, out) if o == 'bad-op']
     if bad:
         raise common.Infra(f'driver refused: {bad[0][0]}')
-    k = len(pre)
+    n = len(res['commands'])
+    k = len(lines) - (len(res['chunks']) + 1 + 2 * (n + 1))
     feeds = out[k : k + len(res['chunks'])]
     k += len(res['chunks'])
     initial = out[k].split(' | ') if out[k] != '-' else []
@@ -482,6 +496,22 @@ def run_model(case: dict, res: dict, quirks: dict) -> dict:
     return {'commands': cmds, 'dead': dead, 'initial': initial, 'execs': execs}
 
 
+def run_model(case: dict, res: dict, quirks: dict) -> dict:
+    lines = model_script(case, res, quirks)
+    return model_result(res, lines, common.run_driver('drv_api', lines))
+
+
+def run_models(batch: list[tuple[dict, dict]], quirks: dict) -> list[dict]:
+    """One driver process for a batch of cases (`api init` resets the driver state)."""
+    scripts = [model_script(c, r, quirks) for c, r in batch]
+    out = common.run_driver('drv_api', [l for sc in scripts for l in sc])
+    mods, k = [], 0
+    for (c, r), sc in zip(batch, scripts):
+        mods.append(model_result(r, sc, out[k : k + len(sc)]))
+        k += len(sc)
+    return mods
+
+
 def compare(case: dict, res: dict, mod: dict) -> str | None:
     if mod['commands'] != res['commands']:
         return f'command sequence: impl {res["commands"]!r} model {mod["commands"]!r}'
@@ -494,6 +524,10 @@ def compare(case: dict, res: dict, mod: dict) -> str | None:
         e = mod['execs'][k]
         if e is None or e['cmd'] != c:
             return f'command {k}: impl {c!r} model {e and e["cmd"]!r}'
+        if res['dead']:
+            # the helper was killed (oversized line): which of the already queued commands still get
+            # their replies written, and whether a group buffer survives, depends on the scheduling
+            continue
         if not e['modelled']:
             modelled = False
         if not modelled:
@@ -505,7 +539,7 @@ def compare(case: dict, res: dict, mod: dict) -> str | None:
             return f'RIBs after command {k} {c!r}: (neighbor, impl, model) {d}'
     if mod['execs'][len(res['commands'])] is not None:
         return 'model has more commands queued than the implementation executed'
-    if modelled and res['commands']:
+    if modelled and res['commands'] and not res['dead']:
         last = mod['execs'][len(res['commands']) - 1]
         if last['version'] != res['version_after'] or last['ack'] != bool(res['ack_after']):
             return f'final api version / ack: impl {res["version_after"]}/{res["ack_after"]} model {last["version"]}/{last["ack"]}'
@@ -531,6 +565,23 @@ def selector_fails(case: dict) -> bool:
     return any(f['what'] == 'selector' for f in oracle(case, res))
 
 
+def selector_shape(specs: list[dict], sel: list[dict]) -> list:
+    """Addresses and values abstracted: IP+ an address some neighbor has, IP- nobody's, K+/K- a term
+    that some / no neighbor (with that address) matches."""
+    addrs = {s['peer'] for s in specs}
+    shape = []
+    for d in sel:
+        row = ['*' if d['ip'] == '*' else 'IP+' if d['ip'] in addrs else 'IP-']
+        for k, v in d['terms']:
+            hit = any((d['ip'] == '*' or d['ip'] == s['peer']) and spec_value(s, k) == v for s in specs)
+            row.append('K+' if hit else 'K-')
+        shape.append(row)
+    return shape
+
+
+_shrunk: dict = {}
+
+
 def shrink_selector(case: dict, line: int) -> tuple[dict, dict]:
     """Minimal single-command case that still changes a neighbor outside the selector; its canonical form."""
     tag = case['lines'][line]['tag']
@@ -540,19 +591,17 @@ def shrink_selector(case: dict, line: int) -> tuple[dict, dict]:
     mk = lambda s, sy, a, v=version: single_line_case(v, nbrs, s, sy, a)
     if not selector_fails(mk(sel, syntax, action)):
         return case, {'unshrunk': True, 'line': case['lines'][line]['text']}
-    # 1. action -> plain route announce when the failure does not depend on the action
-    route = 'announce route 10.0.1.0/24 next-hop 192.0.2.1'
-    action_class = 'route'
-    if action != route:
-        if selector_fails(mk(sel, syntax, route)):
-            action = route
-        else:
-            action_class = 'watchdog' if 'watchdog' in action else 'group' if action.startswith('group') else 'other'
-            if action_class == 'watchdog':
-                for a in ('announce watchdog dog', 'withdraw watchdog dog', 'announce watchdog cat', 'withdraw watchdog cat'):
-                    if selector_fails(mk(sel, syntax, a)):
-                        action = a
-                        break
+    # 1. the action: the watchdog handlers are a class of their own (they ignore the selection),
+    #    everything else that changes a RIB is a route command; take the plainest one that still fails
+    action_class = 'watchdog' if 'watchdog' in action else 'route'
+    if action_class == 'watchdog':
+        candidates = ['announce watchdog dog', 'withdraw watchdog dog', 'announce watchdog cat', 'withdraw watchdog cat']
+    else:
+        candidates = ['announce route 10.0.1.0/24 next-hop 192.0.2.1', 'announce route 2001:db8:6::/48 next-hop 2001:db8::1']
+    for a in candidates:
+        if a != action and selector_fails(mk(sel, syntax, a)):
+            action = a
+            break
     progress = True
     while progress:
         progress = False
@@ -601,15 +650,8 @@ def shrink_selector(case: dict, line: int) -> tuple[dict, dict]:
         if selector_fails(cand):
             small = cand
             specs = NBR_SETS['default']
-    addrs = {s['peer'] for s in specs}
-    shape = []
-    for d in sel:
-        row = ['*' if d['ip'] == '*' else 'IP+' if d['ip'] in addrs else 'IP-']
-        for k, v in d['terms']:
-            hit = any((d['ip'] == '*' or d['ip'] == s['peer']) and spec_value(s, k) == v for s in specs)
-            row.append('K+' if hit else 'K-')
-        shape.append(row)
-    canon = {'path': 'v4-text' if syntax.startswith('neighbor') else 'v6-tree', 'selector': shape, 'action': action_class}
+    shape = selector_shape(specs, sel)
+    canon = {'action': action_class} if action_class == 'watchdog' else {'selector': shape, 'action': action_class}
     return small, canon
 
 
@@ -644,35 +686,42 @@ def shrink_lines(case: dict, bad) -> dict:
 # reader probes (boundary lengths around MAX_COMMAND_SIZE; malformed streams)
 
 
-def raw_case(version: int, data: bytes, cuts: list[int], cuts2: list[int] | None = None, why: str = '') -> dict:
-    return {'version': version, 'ack': True, 'nbrs': 'two', 'raw_hex': data.hex(), 'cuts': cuts, 'cuts2': cuts2 or [], 'spin': 0, 'why': why}
+def raw_case(version: int, data: bytes, cuts: list[int], cuts2: list[int] | None = None, why: str = '', mx: int | None = None) -> dict:
+    c = {'version': version, 'ack': True, 'nbrs': 'two', 'raw_hex': data.hex(), 'cuts': cuts, 'cuts2': cuts2 or [], 'spin': 0, 'why': why}
+    if mx is not None:
+        c['max'] = mx
+    return c
 
 
-def oversize_probe() -> tuple[dict, dict, dict]:
-    """One line of MAX+8 bytes followed by a command, delivered (a) so that the buffer holds
-    exactly MAX bytes when the read bringing the newline arrives, (b) in plain 16384-byte reads."""
-    line = b'#' + b'x' * (MAX + 7)
+def oversize_probe(mx: int = MAX, read: int = 16384) -> dict:
+    """One line of MAX + read/3 bytes between two commands, delivered (cuts) so that the buffer
+    holds exactly MAX bytes when the read bringing the newline arrives, and (cuts2) so that it
+    holds MAX + 1 bytes before the newline is seen."""
+    extra = max(2, read // 3)
+    line = b'#' + b'x' * (mx + extra - 1)
     data = b'# first\n' + line + b'\n# after\n'
-    a = raw_case(6, data, [8, 8 + MAX], why='oversize-aligned')
-    b = raw_case(6, data, [], why='oversize-plain')
-    return a, b, {'len': len(line)}
+    return raw_case(6, data, [8, 8 + mx], [8, 8 + mx + 1], why='oversize', mx=None if mx == MAX else mx)
 
 
 def gen_raw(rng) -> dict:
-    """Malformed / adversarial byte streams for the reader alone (ASCII)."""
+    """Malformed / adversarial byte streams for the reader alone (ASCII), some with a small
+    MAX_COMMAND_SIZE (set on the Processes instance) so that the oversize rule is exercised."""
     x = rng.random()
+    mx = rng.choice([None, None, 16, 64, 200])
     if x < 0.4:
         n = rng.randrange(1, 400)
-        data = bytes(rng.choice([10, 13, 32, 9, 35, 91, 93, 40, 41, 44, 59] + list(range(33, 127))) for _ in range(n))
+        data = bytes(rng.choice([10, 10, 13, 32, 9, 35, 91, 93, 40, 41, 44, 59] + list(range(33, 127))) for _ in range(n))
     elif x < 0.7:
         parts = []
         for _ in range(rng.randrange(1, 8)):
-            parts.append(rng.choice([b'', b' ', b'debug x', b'debug', b' debug y', b'#', b'\r', b'a[b]c(d)e,f', b'[[', b',,', b'\x0b', b'\x0c \x1c', b'x' * rng.choice([1, 100, 5000, 20000])]))
+            parts.append(rng.choice([b'', b' ', b'debug x', b'debug', b' debug y', b'#', b'\r', b'a[b]c(d)e,f', b'[[', b',,', b'\x0b', b'\x0c \x1c', b'x' * rng.choice([1, 15, 16, 17, 63, 64, 65, 100, 199, 200, 201, 5000])]))
         data = rng.choice([b'\n', b'\r\n']).join(parts) + rng.choice([b'', b'\n'])
+    elif x < 0.8 and mx:
+        return {**oversize_probe(mx, rng.choice([8, 16, 40])), 'version': rng.choice([4, 6])}
     else:
         data = bytes(rng.randrange(0, 128) for _ in range(rng.randrange(1, 200)))
     n = len(data)
-    return raw_case(rng.choice([4, 6]), data, gen_cuts(rng, n), gen_cuts(rng, n), why='raw')
+    return raw_case(rng.choice([4, 6]), data, gen_cuts(rng, n), gen_cuts(rng, n), why='raw', mx=mx)
 
 
 # ---------------------------------------------------------------------------------------------
@@ -690,7 +739,7 @@ def shape_of(case: dict) -> list:
     return [case['version'], case.get('nbrs'), [(l['tag']['kind'], l['tag'].get('syntax'), len(l['tag'].get('sel') or [])) for l in case['lines']], len(case['cuts'])]
 
 
-def eval_case(ctx: Ctx, case: dict, quirks: dict, seen: set, origin: str) -> None:
+def eval_case(ctx: Ctx, case: dict, quirks: dict, seen: set, origin: str, pending: list) -> None:
     data = case_bytes(case)
     res = run_real(case, case.get('cuts', []))
     ctx.evaluations += 1
@@ -709,7 +758,7 @@ def eval_case(ctx: Ctx, case: dict, quirks: dict, seen: set, origin: str) -> Non
         lens = [len(x) for x in data.split(b'\n')]
         non_ascii = any(b >= 128 for b in data)
         if max(lens) > case.get('max', MAX):
-            canon = {'what': 'line longer than MAX_COMMAND_SIZE', 'class': 'len <= MAX + read size' if max(lens) <= MAX + 16384 else 'len > MAX + read size'}
+            canon = {'what': 'line longer than MAX_COMMAND_SIZE'}
         elif non_ascii:
             canon = {'what': 'non-ascii'}
         else:
@@ -731,7 +780,11 @@ def eval_case(ctx: Ctx, case: dict, quirks: dict, seen: set, origin: str) -> Non
     for f in fails:
         ctx.count('oracle-fail:' + f['what'])
         if f['what'] == 'selector' and f['line'] >= 0:
-            small, canon = shrink_selector(case, f['line']) if len(seen) < 60 else (case, {'unshrunk': True})
+            tag = case['lines'][f['line']]['tag']
+            pre = json.dumps([tag['version'], case.get('nbrs'), tag['syntax'], selector_shape(specs_of(case), tag['sel']), tag['action'].split(' ')[:2]])
+            if pre not in _shrunk:
+                _shrunk[pre] = shrink_selector(case, f['line'])
+            small, canon = _shrunk[pre]
             kind = 'selector'
         else:
             small, canon, kind = case, {'what': f['what'], 'line': case['lines'][f['line']]['text'] if f['line'] >= 0 else '', 'version': case['version']}, 'api-' + f['what']
@@ -744,9 +797,16 @@ def eval_case(ctx: Ctx, case: dict, quirks: dict, seen: set, origin: str) -> Non
             continue
         seen.add(key)
         ctx.failures.append(Failure(kind, canon, {'case': small}, f'{f["what"]}: {f["detail"]}'))
-    # --- correspondence with the model
-    if ctx.driver_ok:
-        mod = run_model(case, res, quirks)
+    # --- correspondence with the model: batched by the caller
+    if ctx.driver_ok and case.get('model', True):
+        pending.append((case, res))
+
+
+def flush_models(ctx: Ctx, pending: list, quirks: dict) -> None:
+    if not pending:
+        return
+    mods = run_models(pending, quirks)
+    for (case, res), mod in zip(pending, mods):
         diff = compare(case, res, mod)
         if any(e is not None and not e['modelled'] for e in mod['execs']):
             ctx.count('case-with-unmodelled-command')
@@ -763,6 +823,7 @@ def eval_case(ctx: Ctx, case: dict, quirks: dict, seen: set, origin: str) -> Non
                 r = run_real(small, small.get('cuts', []))
                 diff = compare(small, r, run_model(small, r, quirks)) or diff
             ctx.disagreements.append(Disagreement('api', small, None, diff))
+    pending.clear()
 
 
 def run(ctx: Ctx) -> None:
@@ -778,19 +839,22 @@ def run(ctx: Ctx) -> None:
     )
     seen: set = set()
     cases: list[tuple[dict, str]] = [(c, 'corpus') for c in load_corpus()]
-    a, b, _ = oversize_probe()
-    cases.append(({**a, 'cuts2': b['cuts']}, 'oversize-probe'))
-    nrandom = 700 if ctx.tier == 'quick' else 30000
+    cases.append(({**oversize_probe(), 'model': ctx.tier == 'thorough'}, 'oversize-probe'))
+    nrandom = 600 if ctx.tier == 'quick' else 30000
     nraw = 150 if ctx.tier == 'quick' else 4000
     for i in range(nrandom):
         cases.append((gen_case(rng, ctx.tier), 'random'))
         if i % max(1, nrandom // nraw) == 0:
             cases.append((gen_raw(rng), 'raw'))
+    pending: list = []
     for case, origin in cases:
-        if ctx.time_left() < 3:
+        if ctx.time_left() < 5:
             ctx.notes.append(f'budget reached after {ctx.evaluations} cases')
             break
-        eval_case(ctx, case, quirks, seen, origin)
+        eval_case(ctx, case, quirks, seen, origin, pending)
+        if len(pending) >= 40:
+            flush_models(ctx, pending, quirks)
+    flush_models(ctx, pending, quirks)
 
 
 def replay(path: str) -> int:
